@@ -1,5 +1,5 @@
 (* Correspondence evaluation for the decode side (C05, C07; C04 and C12 reuse it). *)
-From Coq Require Import NArith ZArith List Uint63 Bool.
+From Coq Require Import NArith ZArith Arith List Uint63 Bool.
 From Coq.Strings Require Import Byte.
 From LOF Require Export Corr.Common.
 From LOF Require Import Base.Bytes Base.Res Model.Wire Model.Parse.
@@ -13,7 +13,14 @@ Definition n_of (i : int) : N := Z.to_N (Uint63.to_Z i).
 (* input, outcome (0 message, 1 error, 2 panic, 3 hang, 4 memory, 5 neither, 9 could not be
    encoded), re-encoding of what was parsed, its Len(), whether to compare the re-encoding,
    whether the canonical field dump equals the one before encoding *)
-Inductive caseD := Par (input : list int) (outcome : int) (reenc : list int) (lenv cmp same : int).
+Inductive caseD :=
+| Par (input : list int) (outcome : int) (reenc : list int) (lenv cmp same : int)
+(* a spec-conformant switch message: [known] names the finding whose signature the generator
+   gave this frame (0 = none) *)
+| Sw (input : list int) (outcome : int) (reenc : list int) (lenv same known : int)
+(* C12: the frame, the outcome, the re-encoding and Len() of the parsed message AFTER its input
+   buffer was overwritten, whether all fields / the encoding are what they were before *)
+| Own (input : list int) (outcome : int) (reenc : list int) (lenv dumpeq enceq : int).
 
 Definition model_agrees (d : list byte) (oc : N) (re : list byte) (lenv : N) (cmp : bool) : bool :=
   match parse_top d with
@@ -27,6 +34,7 @@ Definition check07 (c : caseD) : verdict :=
   match c with
   | Par input oc re lenv cmp same =>
     mkv (model_agrees (unpack input) (n_of oc) (unpack re) (n_of lenv) false) (n_of oc <? 2)
+  | _ => VBad
   end.
 
 (* C05: decoding the encoding gives the same fields, and re-encoding the same bytes *)
@@ -46,4 +54,37 @@ Definition check05 (c : caseD) : verdict :=
     let agree := model_agrees d (n_of oc) (unpack re) (n_of lenv) true in
     let accept := N.eqb (n_of oc) 0 && bytes_eqb (unpack re) d && N.eqb (n_of same) 1 && N.eqb (n_of lenv) (N.of_nat (length d)) in
     if accept then mkv agree true else if agree && is_d13 d then VKnown 13 else mkv agree false
+  | _ => VBad
+  end.
+
+(* C04: a conformant frame parses to a message whose fields are what was written.
+   Known findings: D37 an echo with a body is decoded as a bare header (the body is lost);
+   D13 port/table/queue statistics replies *)
+Definition is_echo_with_body (d : list byte) : bool :=
+  match d with _ :: ty :: _ => (N.eqb (b2n ty) 2 || N.eqb (b2n ty) 3) && (8 <? length d)%nat | _ => false end.
+
+Definition check04 (c : caseD) : verdict :=
+  match c with
+  | Sw input oc re lenv same known =>
+    let d := unpack input in
+    let agree := model_agrees d (n_of oc) (unpack re) (n_of lenv) true in
+    let accept := N.eqb (n_of oc) 0 && N.eqb (n_of same) 1 in
+    if accept then mkv agree true
+    else if agree && N.eqb (n_of known) 37 && is_echo_with_body d && N.eqb (n_of oc) 0 then VKnown 37
+    else if agree && N.eqb (n_of known) 13 && is_d13 d then VKnown 13
+    else mkv agree false
+  | _ => VBad
+  end.
+
+(* C12: the message observed after the overwrite is the pure value of the original bytes:
+   unchanged on the implementation's side, and its encoding is the model's encoding of
+   parse_top of the original frame *)
+Definition check12 (c : caseD) : verdict :=
+  match c with
+  | Own input oc re lenv dumpeq enceq =>
+    let d := unpack input in
+    let agree := model_agrees d (n_of oc) (unpack re) (n_of lenv) true in
+    if N.eqb (n_of oc) 0 then mkv agree (N.eqb (n_of dumpeq) 1 && N.eqb (n_of enceq) 1)
+    else mkv agree (N.eqb (n_of oc) 1)
+  | _ => VBad
   end.
